@@ -155,6 +155,9 @@ GENERIC_TYPE_MAP: dict[type, type] = {
     tp.Hashable: str,
     collections.abc.Hashable: str,
 }
+# `ByteString` is deprecated (gone in 3.14); where it exists, its concrete counterpart is `bytes`.
+if hasattr(collections.abc, "ByteString"):
+    GENERIC_TYPE_MAP[collections.abc.ByteString] = bytes
 
 
 def args(annotation: tp.Any, *, evaluate: bool = False) -> tp.Tuple[tp.Any, ...]:
